@@ -188,6 +188,19 @@ def one_function(ctx, spec):
             ctx.inconclusive.append("scope reference model disagrees with symtable")
     except Exception:
         pass
+    # -- one shared description (as sync passes it on): re-homing into a class first must not
+    #    change the body the function emitter carries afterwards
+    shared = ir_copy_keep_body(ir)
+    try:
+        emit.class_(shared, emit_call=True, class_name="C_target")
+        out = emit.function(shared, function_name=spec.name, function_type=spec.kind, emit_default_doc=False,
+                            inline_types=True, emit_as_kwonlyargs=False, indent_level=1)
+        out_fd = ast.parse(to_code(out)).body[0]
+    except Exception:
+        return  # failures of the single emissions are reported above
+    ctx.event("emit.function_after_class_on_shared_description")
+    compare_bodies(ctx, dict(base, emit_as_kwonlyargs=False, sequence="class_then_function_on_one_description"), replay, before,
+                   strip_doc(out_fd.body), "function")
 
 
 def _children_bind(fd, pnames):
